@@ -405,6 +405,12 @@ struct url : url_base {
   bool set_host_or_hostname(std::string_view input);
 
   /**
+   * set_port() without the maximum-length check: used by set_port() itself and
+   * by the host setter, which checks the length once for the whole operation.
+   */
+  bool set_port_unchecked(std::string_view input);
+
+  /**
    * Return true on success.
    * @see https://url.spec.whatwg.org/#concept-ipv4-parser
    */
